@@ -717,16 +717,15 @@ def part_direct(params, tier, acc):
 def part_reuse(params, tier, acc):
     """Long-lived context objects entered again and again under different
     enclosing contexts: every sequence of <=5 operations over {enter c1,
-    enter c2, enter c3, leave, update} on one controller; after every
-    operation the arguments in force are those of a stack of dicts, and a
-    read goes where they say."""
-    frames = [dict(x=1, y=2), dict(app_id=30, p=3), dict(x=3)]
+    enter c2, enter c3, leave, update} on one controller.  The arguments in
+    force - looked at after every operation, or only after the first and the
+    last one (a cache could be refreshed by looking) - are those of a stack
+    of dicts, and a read goes where they say."""
     ops = ["e0", "e1", "e2", "leave", "upd"]
     first = params["first"]
     for n in range(1, 6):
         for rest in itertools.product(ops, repeat=n - 1):
             seq = (first,) + rest
-            # leaves only when something is open
             depth = 0
             ok = True
             for o in seq:
@@ -739,65 +738,77 @@ def part_reuse(params, tier, acc):
                     depth += 1
             if not ok:
                 continue
-            acc.evaluations += 1
-            acc.nontrivial += 1
-            acc.transitions += 1
-            with Twin() as tw:
-                mc = tw.A
-                objs = [mc(**f) for f in frames]
-                dicts = [dict(f) for f in frames]
-                base = {"app_id": 66}
-                stack = []          # indices into objs, -1 = base
-                opened = []
-                bad = None
-                for step, o in enumerate(seq):
-                    if o == "leave":
-                        opened.pop().__exit__(None, None, None)
-                        stack.pop()
-                    elif o == "upd":
-                        mc.update_current_context(y=4)
-                        (dicts[stack[-1]] if stack else base)["y"] = 4
-                    else:
-                        i = int(o[1])
-                        objs[i].__enter__()
-                        opened.append(objs[i])
-                        stack.append(i)
-                    want = dict(base)
-                    for i in stack:
-                        want.update(dicts[i])
-                    got = mc.get_context_arguments()
-                    if got != want:
-                        bad = ("after %r the context arguments are %r, the "
-                               "stack of context objects gives %r"
-                               % (seq[:step + 1], got, want))
-                        break
-                if not bad and "x" in want and "y" in want:
-                    n0 = len(tw.sims["A"].cmds)
-                    tgt = (want["x"], want["y"])
-                    try:
-                        mc.read(0x60000000, 4)
-                        r = tw.sims["A"].cmds[n0:]
-                        if tgt in tw.sims["A"].chips and (
-                                not r or r[-1]["raw_chip"] != tgt or
-                                r[-1]["cpu"] != want.get("p", 0)):
-                            bad = ("after %r a read went to %r, the context "
-                                   "says chip %r core %r"
-                                   % (seq, [(c["raw_chip"], c["cpu"])
-                                            for c in r], tgt,
-                                      want.get("p", 0)))
-                    except Exception as e:
-                        if tgt in tw.sims["A"].chips:
-                            bad = "read raised %s: %s" % (type(e).__name__, e)
-                while opened:
-                    try:
-                        opened.pop().__exit__(None, None, None)
-                    except Exception:
-                        pass
+            for look in ("always", "ends"):
+                if look == "ends" and n < 3:
+                    continue
+                acc.evaluations += 1
+                acc.nontrivial += 1
+                acc.transitions += 1
+                bad = reuse_execution(seq, look)
                 if bad:
                     acc.violation(dict(kind="reused_context_objects"),
                                   dict(part="reuse", first=first,
-                                       seq=list(seq)), bad, size=len(seq))
+                                       seq=list(seq), look=look), bad,
+                                  size=len(seq))
     acc.sample(dict(part="reuse", first=first, ops=ops))
+
+
+def reuse_execution(seq, look):
+    frames = [dict(x=1, y=2), dict(app_id=30, p=3), dict(x=3)]
+    with Twin() as tw:
+        mc = tw.A
+        objs = [mc(**f) for f in frames]
+        dicts = [dict(f) for f in frames]
+        base = {"app_id": 66}
+        stack = []
+        opened = []
+        bad = None
+        want = dict(base)
+        for step, o in enumerate(seq):
+            if o == "leave":
+                opened.pop().__exit__(None, None, None)
+                stack.pop()
+            elif o == "upd":
+                mc.update_current_context(y=4)
+                (dicts[stack[-1]] if stack else base)["y"] = 4
+            else:
+                i = int(o[1])
+                objs[i].__enter__()
+                opened.append(objs[i])
+                stack.append(i)
+            want = dict(base)
+            for i in stack:
+                want.update(dicts[i])
+            if look == "ends" and 0 < step < len(seq) - 1:
+                continue
+            got = mc.get_context_arguments()
+            if got != want:
+                bad = ("after %r (arguments looked at: %s) the context "
+                       "arguments are %r, the stack of context objects "
+                       "gives %r" % (seq[:step + 1], look, got, want))
+                break
+        if not bad and "x" in want and "y" in want:
+            n0 = len(tw.sims["A"].cmds)
+            tgt = (want["x"], want["y"])
+            try:
+                mc.read(0x60000000, 4)
+                r = tw.sims["A"].cmds[n0:]
+                if tgt in tw.sims["A"].chips and (
+                        not r or r[-1]["raw_chip"] != tgt or
+                        r[-1]["cpu"] != want.get("p", 0)):
+                    bad = ("after %r a read went to %r, the context says "
+                           "chip %r core %r"
+                           % (seq, [(c["raw_chip"], c["cpu"]) for c in r],
+                              tgt, want.get("p", 0)))
+            except Exception as e:
+                if tgt in tw.sims["A"].chips:
+                    bad = "read raised %s: %s" % (type(e).__name__, e)
+        while opened:
+            try:
+                opened.pop().__exit__(None, None, None)
+            except Exception:
+                pass
+    return bad
 
 
 def part_connections(params, tier, acc):
